@@ -46,7 +46,23 @@ class Runner:
         return mod
 
     def call(self, mod, fn, script, drive=None):
-        """run fn(90) on script; returns (log, result); propagates NeedDecision"""
+        """run fn(90) on script; returns (log, result); propagates NeedDecision.
+        Programs with a `shadow` name are called twice: the module starts shadowing that builtin between the calls."""
+        shadow = self.prog.get("shadow")
+        if shadow and hasattr(mod, shadow):
+            delattr(mod, shadow)
+        log, result = self.call1(mod, fn, script)
+        if shadow:
+            setattr(mod, shadow, rt2.SHADOW)
+            try:
+                log2, result2 = self.call1(mod, fn, script)
+            finally:
+                delattr(mod, shadow)
+            log = log + [["second-call"]] + log2
+            result = result + ["|"] + result2
+        return log, result
+
+    def call1(self, mod, fn, script):
         rt2.reset(script)
         if hasattr(mod, "GV"):
             del mod.GV
